@@ -225,6 +225,11 @@ class World:
     def scenario_parset(self):
         """parset with the spec's parameter scenario(s) applied (one ParameterScenario per interpolation method)"""
         ps = self.parset
+        # scenarios applied EARLIER to the same parameter set (the spec's "scen" entries are applied on top of them)
+        for sc_ in self.spec.get("scen_first", []):
+            scen = at.ParameterScenario(name="first", interpolation=sc_.get("interp", "linear"))
+            scen.add(sc_["par"], sc_["pop"], list(sc_["t"]), list(sc_["y"]))
+            ps = scen.get_parset(ps, self.P)
         by = {}
         for sc_ in self.spec.get("scen", []):
             by.setdefault(sc_.get("interp", "linear"), []).append(sc_)
